@@ -37,14 +37,18 @@ Inductive build_variant := BuildPure | BuildWritesJitter.
 Section Builder.
   Variable mstate : Type.
   Variable prngkey : Z -> key.                               (* jax.random.PRNGKey, an oracle *)
-  Variable jitter_apply : list key -> mstate -> mstate.      (* as in Keys.Machine *)
+  (* a jitter dictionary (which position keys, which functions, in which order): [jn d] = len(d),
+     [jitter_apply d keys state] = update_state({pos_key_f: d[pos_key_f](keys_f, position_f)}, state) *)
+  Variable jdict : Type.
+  Variable jn : jdict -> nat.
+  Variable jitter_apply : jdict -> list key -> mstate -> mstate.
 
   Record builder := mkB {
     bd_engine : key;                       (* self._engine_key *)
     bd_jitter : key;                       (* self._jitter_key *)
     bd_nch : nat;                          (* self._num_chains *)
     bd_states : option (list mstate);      (* self._model_state (stacked: one entry per chain) *)
-    bd_jit : option nat }.                 (* self._jitter_fns: number of jitter functions, dict order *)
+    bd_jit : option jdict }.               (* self._jitter_fns = Option(the dictionary last given) *)
 
   (* EngineBuilder(seed, num_chains) *)
   Definition b_new (s : seed) (nch : nat) : builder :=
@@ -58,15 +62,17 @@ Section Builder.
     | None => None
     | Some st => Some (mkB (bd_engine b) (bd_jitter b) (bd_nch b) (Some st) (bd_jit b))
     end.
-  (* set_jitter_fns(dict) *)
-  Definition b_set_jitter_fns (j : option nat) (b : builder) : builder :=
+  (* set_jitter_fns(jitter_fns): self._jitter_fns = Option(jitter_fns) - None clears, the last call wins *)
+  Definition b_set_jitter_fns (j : option jdict) (b : builder) : builder :=
     mkB (bd_engine b) (bd_jitter b) (bd_nch b) (bd_states b) j.
 
-  Definition jitter_chain_g (jk : key) (nch : nat) (jit : option nat) (c : nat) (ms : mstate) : mstate :=
+  Definition jitter_chain_g (jk : key) (nch : nat) (jit : option jdict) (c : nat) (ms : mstate) : mstate :=
     match jit with
     | None => ms
-    | Some nfn => jitter_apply (map (fun f => split (split jk nfn f) nch c) (seq 0 nfn)) ms
+    | Some d => jitter_apply d (map (fun f => split (split jk (jn d) f) nch c) (seq 0 (jn d))) ms
     end.
+  (* what the key flow sees of the jitter configuration *)
+  Definition jit_count (b : builder) : option nat := option_map jn (bd_jit b).
 
   (* what build() hands to Engine(seeds=..., model_states=...) *)
   Record engine_in := mkEI { ei_seeds : list key; ei_states : list mstate }.
@@ -92,7 +98,7 @@ Section Builder.
   Inductive bop :=
     | BSetEngineSeed (s : seed)
     | BSetInit (a : init_arg mstate)
-    | BSetJitter (j : option nat)
+    | BSetJitter (j : option jdict)
     | BBuild.
   (* state: (builder, result of the last build) ; None = some call raised *)
   Definition b_step (sv : siv_variant) (bv : build_variant) (st : builder * option engine_in) (o : bop)
@@ -117,7 +123,8 @@ Section Builder.
 End Builder.
 
 Arguments mkEI {mstate}. Arguments ei_seeds {mstate}. Arguments ei_states {mstate}.
-Arguments BSetEngineSeed {mstate}. Arguments BSetInit {mstate}. Arguments BSetJitter {mstate}. Arguments BBuild {mstate}.
+Arguments BSetEngineSeed {mstate jdict}. Arguments BSetInit {mstate jdict}. Arguments BSetJitter {mstate jdict}.
+Arguments BBuild {mstate jdict}.
 
 (* Engine(seeds, model_states, ...) followed by sample_all_epochs(): the vmapped engine of Keys.v started
    from what build() handed over *)
